@@ -65,8 +65,8 @@ Fixpoint trailing_decision (o : hopts) (rest : list htok) : bool * bool :=
     end
   end.
 
-(* </p> may go when what follows (after white-space-only text) is the end of input, an end tag without the keepPTag
-   trait, or a start tag with the omitPTag trait *)
+(* </p> may go when what follows (after white-space-only text) is the end of input, the end tag of a known element without
+   the keepPTag trait, or a start tag with the omitPTag trait *)
 Fixpoint p_end_omitted (rest : list htok) : bool :=
   match rest with
   | [] => true
@@ -74,7 +74,7 @@ Fixpoint p_end_omitted (rest : list htok) : bool :=
     match tt n with
     | HText => if all_ws (text n) then p_end_omitted r else false
     | HError => true
-    | HEndTag => negb (has (traits_of n) trait_keepPTag)
+    | HEndTag => negb (traits_of n =? 0) && negb (has (traits_of n) trait_keepPTag)     (* unknown (custom) elements keep </p> *)
     | HStartTag => has (traits_of n) trait_omitPTag
     | _ => false
     end
